@@ -46,6 +46,16 @@ theorem step_marks_mono {h h' : Hist} {op : Op} (hst : (stepG true (some h) op).
       refine Or.inr ⟨rfl, ?_, ?_⟩
       · simp only [Hist.push, restored, if_true]; omega
       · intro i hb; simp only [Hist.push, restored, if_true]; exact optMax_right hb
+  | restoreAt hv v =>
+    simp only [stepG] at hst
+    split at hst
+    · cases hst; exact Or.inl rfl
+    · split at hst
+      · cases hst; exact Or.inl rfl
+      · cases hst
+        refine Or.inr ⟨rfl, ?_, ?_⟩
+        · simp only [Hist.push, restored, if_true]; omega
+        · intro i hb; simp only [Hist.push, restored, if_true]; exact optMax_right hb
 
 /-- newest first, every manifest's marks are at least those of every older one -/
 def Mono (h : Hist) : Prop :=
@@ -86,6 +96,7 @@ theorem mono_runG (ops : List Op) {s : Option Hist} (hs : ∀ h, s = some h → 
       | overwrite f k rows => simp [stepG] at hst
       | delete p => simp [stepG] at hst
       | restore v => simp [stepG] at hst
+      | restoreAt hv v => simp [stepG] at hst
     | some h => exact mono_step (hs h rfl) hst
 
 end LanceModel.C07
